@@ -227,6 +227,38 @@ func Draw(t *rapid.T, mode Mode, pkg string) Result {
 		g.buildMessage(g.msgs[i])
 	}
 
+	// a flatten cycle that does not pass through the message that starts it:
+	// A flattens B, and B flattens itself (or C, which flattens B)
+	if mode == Arbitrary && len(g.msgs) >= 2 && rapid.IntRange(0, 5).Draw(t, "flattencycle") == 0 {
+		ix := rapid.Permutation(g.msgs).Draw(t, "cyclemsgs")
+		a, b := ix[0], ix[1]
+		c := b
+		if len(ix) >= 3 && rapid.Bool().Draw(t, "cycle3") {
+			c = ix[2]
+		}
+		add := func(from, to *msgPlan, name string) {
+			var maxNum int32
+			for _, f := range from.desc.Field {
+				if f.GetNumber() > maxNum {
+					maxNum = f.GetNumber()
+				}
+			}
+			opts := &descriptorpb.FieldOptions{}
+			proto.SetExtension(opts, ext_j5pb.E_Field, &ext_j5pb.FieldOptions{Type: &ext_j5pb.FieldOptions_Object{Object: &ext_j5pb.ObjectField{Flatten: true}}})
+			from.desc.Field = append(from.desc.Field, &descriptorpb.FieldDescriptorProto{
+				Name: proto.String(name), JsonName: proto.String(jsonName(name)), Number: proto.Int32(maxNum + 1),
+				Type: descriptorpb.FieldDescriptorProto_TYPE_MESSAGE.Enum(), TypeName: proto.String(to.full),
+				Label: descriptorpb.FieldDescriptorProto_LABEL_OPTIONAL.Enum(), Options: opts,
+			})
+		}
+		add(a, b, fmt.Sprintf("cyc_in_%d", a.index))
+		add(b, c, fmt.Sprintf("cyc_on_%d", b.index))
+		if c != b {
+			add(c, b, fmt.Sprintf("cyc_back_%d", c.index))
+		}
+		g.cls("flatten-cycle-off-root")
+	}
+
 	fd := &descriptorpb.FileDescriptorProto{
 		Name:       proto.String(strings.ReplaceAll(pkg, ".", "/") + "/gen.proto"),
 		Package:    proto.String(pkg),
